@@ -131,6 +131,9 @@ enum Op {
     Merge(usize),
     Split(usize, usize),
     OsIsClosed(usize),
+    OcSet(usize, u64),
+    OcGet(usize),
+    OcInit(usize, u64, usize, bool),
 }
 
 fn parse_op(w: &str) -> Result<Op, String> {
@@ -204,6 +207,10 @@ fn parse_op(w: &str) -> Result<Op, String> {
         "mg" => Op::Merge(a(0)?),
         "sp" => Op::Split(a(0)?, a(1)?),
         "oi" => Op::OsIsClosed(a(0)?),
+        "xs" => Op::OcSet(a(0)?, a(1)? as u64),
+        "xg" => Op::OcGet(a(0)?),
+        "xi" => Op::OcInit(a(0)?, a(1)? as u64, a(2)?, true),
+        "xt" => Op::OcInit(a(0)?, a(1)? as u64, a(2)?, a(3)? == 1),
         _ => return Err(format!("bad op {w}")),
     })
 }
@@ -239,6 +246,7 @@ struct WatchObj {
 enum Obj {
     Chan(ChanObj),
     Watch(WatchObj),
+    OnceCell(tk::sync::OnceCell<u64>),
     Sem(Arc<tk::sync::Semaphore>),
     Mutex(Arc<tk::sync::Mutex<()>>),
     RwLock(Arc<tk::sync::RwLock<()>>),
@@ -370,6 +378,10 @@ fn make_objs(specs: &[String]) -> Result<Objs, String> {
                 txs[0] = Some(tx);
                 objs.push(Obj::Watch(WatchObj { txs: UnsafeCell::new(txs), rxs: UnsafeCell::new(rxs) }));
                 next += 4;
+            }
+            b'x' => {
+                objs.push(Obj::OnceCell(tk::sync::OnceCell::new()));
+                next += 2;
             }
             b'o' => {
                 let (tx, rx) = oneshot::channel::<u64>();
@@ -991,6 +1003,51 @@ async fn run_ops_inner(p: Arc<Prog>, objs: Arc<Objs>, b: usize, is_task: bool) -
                     None => log_op(115, &[0]),
                 }
             }
+            Op::OcSet(x, v) => {
+                let c = obj!(x, Obj::OnceCell);
+                // SetError is not nameable from outside the crate: its two variants are told apart by the methods
+                let code = match c.set(v) {
+                    Ok(()) => 0,
+                    Err(e) if e.is_already_init_err() => 1,
+                    Err(e) if e.is_initializing_err() => 2,
+                    Err(_) => 9,
+                };
+                log_op(117, &[code]);
+            }
+            Op::OcGet(x) => {
+                let c = obj!(x, Obj::OnceCell);
+                match c.get() {
+                    Some(v) => log_op(118, &[1, *v]),
+                    None => log_op(118, &[0]),
+                }
+            }
+            Op::OcInit(x, v, y, ok) => {
+                let c = obj!(x, Obj::OnceCell);
+                let init = || async move {
+                    for _ in 0..y {
+                        if is_task {
+                            tk::task::yield_now().await;
+                        } else {
+                            thread::yield_now();
+                        }
+                    }
+                    v
+                };
+                if ok {
+                    let f = c.get_or_init(init);
+                    let r = *(if is_task { f.await } else { shuttle::future::block_on(f) });
+                    log_op(119, &[1, r]);
+                } else {
+                    let f = c.get_or_try_init(|| async move {
+                        let v = init().await;
+                        if v == u64::MAX { Ok(v) } else { Err(()) }
+                    });
+                    match if is_task { f.await } else { shuttle::future::block_on(f) } {
+                        Ok(r) => log_op(119, &[1, *r]),
+                        Err(()) => log_op(119, &[0]),
+                    }
+                }
+            }
             Op::OsIsClosed(ob) => {
                 let c = obj!(ob, Obj::Oneshot);
                 let Some(tx) = (unsafe { &*c.tx.get() }).as_ref() else { misuse!() };
@@ -1081,7 +1138,7 @@ fn parse_prog(objs: &str, bodies: &str) -> Result<Arc<Prog>, String> {
     let specs: Vec<String> = crate::split_list(objs, ',').iter().map(|s| s.to_string()).collect();
     // validate the object specs once, outside the execution
     for w in &specs {
-        if w.is_empty() || !matches!(w.as_bytes()[0], b'c' | b's' | b'm' | b'w' | b'n' | b'o' | b'h') {
+        if w.is_empty() || !matches!(w.as_bytes()[0], b'c' | b's' | b'm' | b'w' | b'n' | b'o' | b'h' | b'x') {
             return Err(format!("bad object {w}"));
         }
     }
